@@ -9,6 +9,7 @@ import (
 	"sync"
 
 	"github.com/Vedant9500/WTF/internal/database"
+	"github.com/Vedant9500/WTF/internal/embedding"
 	"github.com/Vedant9500/WTF/verifharness/gen"
 	"github.com/Vedant9500/WTF/verifharness/ref"
 	"pgregory.net/rapid"
@@ -180,4 +181,34 @@ func warmUp(t *rapid.T, db *database.Database, cmds []database.Command, target .
 		db.SearchUniversal(q, o)
 	}
 	return n
+}
+
+// drawEmbeddingIndex draws an in-memory embedding index for cmds: word vectors for most of
+// the vocabulary, command embeddings with components in [-1,1], some of them the zero
+// vector, sometimes fewer embeddings than commands.
+func drawEmbeddingIndex(t *rapid.T, cmds []database.Command) *embedding.Index {
+	dim := rapid.SampledFrom([]int{3, 8, 50}).Draw(t, "emb-dim")
+	comp := rapid.Float32Range(-1, 1)
+	idx := &embedding.Index{Dimension: dim, WordVectors: map[string][]float32{}}
+	for _, w := range append(gen.Tokens(cmds), "find", "files", "show", "list") {
+		switch rapid.IntRange(0, 5).Draw(t, "has-vec") {
+		case 0:
+		case 1:
+			idx.WordVectors[w] = make([]float32, dim) // a zero word vector
+		default:
+			idx.WordVectors[w] = rapid.SliceOfN(comp, dim, dim).Draw(t, "wv")
+		}
+	}
+	n := len(cmds)
+	if rapid.IntRange(0, 4).Draw(t, "fewer-emb") == 0 {
+		n = rapid.IntRange(0, len(cmds)).Draw(t, "n-emb")
+	}
+	for i := 0; i < n; i++ {
+		if rapid.IntRange(0, 4).Draw(t, "zero-emb") == 0 {
+			idx.CmdEmbeddings = append(idx.CmdEmbeddings, make([]float32, dim)) // a command without any known word
+		} else {
+			idx.CmdEmbeddings = append(idx.CmdEmbeddings, rapid.SliceOfN(comp, dim, dim).Draw(t, "ce"))
+		}
+	}
+	return idx
 }
